@@ -96,6 +96,7 @@ func c16PoolOnly(need map[int]bool) []geojson.Object {
 		func() geojson.Object {
 			return geojson.NewPolygon(must(holed, idx1).(*geojson.Polygon).Base().Move(0.5, 0.5))
 		},
+		func() geojson.Object { return geojson.NewCircle(P(20, -30), 50000, 9) },
 	}
 	out := make([]geojson.Object, len(ctors))
 	for i, c := range ctors {
@@ -141,7 +142,7 @@ func c16Calls(npool int, thorough bool) []c16Call {
 	var out []c16Call
 	for r := 0; r < npool; r++ {
 		for _, m := range un {
-			if (m == "Collection" && (r < 8 || r > 11)) || (m == "Circle" && r != 7) || (m == "BaseSeries" && !(r >= 2 && r <= 5 || r == 13)) {
+			if (m == "Collection" && (r < 8 || r > 11)) || (m == "Circle" && r != 7 && r != 14) || (m == "BaseSeries" && !(r >= 2 && r <= 5 || r == 13)) {
 				continue // method does nothing on this kind
 			}
 			out = append(out, c16Call{Method: m, Recv: r, Arg: -1})
